@@ -67,10 +67,10 @@ func (r *Run) Failf(oracle, key, format string, a ...any) {
 	r.Logf("VIOLATION %s [%s]: %s", oracle, key, v.Msg)
 }
 
-func (r *Run) Fault(kind string)   { r.Faults[kind]++ }
-func (r *Run) Probe(name string)   { r.Probes[name]++ }
-func (r *Run) Sig(sig string)      { r.Sigs[sig]++ }
-func (r *Run) Failed() bool        { return len(r.Viols) > 0 }
+func (r *Run) Fault(kind string) { r.Faults[kind]++ }
+func (r *Run) Probe(name string) { r.Probes[name]++ }
+func (r *Run) Sig(sig string)    { r.Sigs[sig]++ }
+func (r *Run) Failed() bool      { return len(r.Viols) > 0 }
 func (r *Run) HasViol(o, k string) bool {
 	for _, v := range r.Viols {
 		if v.Oracle == o && v.Key == k {
